@@ -8,8 +8,6 @@ SPELL = {'low': ['low', 'LOW', 'Low'], 'high': ['high', 'HIGH'], 'byte2': ['byte
 
 def step_list(tier='thorough'):
     out = []
-    if tier == 'thorough':
-        out.append(('step_bin_div', 'step_div()', 'run(a / b) satisfies the division theorem (truncating), all a, b: i64 [slow: thorough tier only]', 2))
     for i, n in enumerate(BINOPS):
         if n in ('div', 'rem'):
             continue
